@@ -88,7 +88,8 @@ def main():
         f.write('# Seeded changes and the checks that catch them (tier %s)\n\n| seed | property | own check | change | violation keys |\n|---|---|---|---|---|\n' % tier)
         for r in rows:
             f.write('| %s | %s | %s | %s | %s |\n' % r)
-        f.write('\nNot detected, on purpose (see DESIGN.md section 6): C07-5 (a target that contains itself - outside the generators\' finite '
+        f.write('\nNot detected, on purpose (see DESIGN.md section 6): C02-17 (which definition governs a renamed policy is '
+                'C11\'s subject - the same mutation is seed C18-17; the malformed override itself grants nothing), C07-5 (a target that contains itself - outside the generators\' finite '
                 'values), C12-12 (differs from the original only after a content change that leaves every modification time unchanged), '
                 'C12-16 (needs the constructor\'s rules= argument, not among the enforcer options C12 quantifies over), C15-10 (a race '
                 'with the first entry-point scan of the process - C15 quantifies over expressions, not start-up schedules).\n')
